@@ -287,7 +287,7 @@ func seekStorm(e *engine.EngineFacade, g *gen, nStable, writers int, sk func(int
 		case <-paused:
 			isPaused = true
 		case <-done:
-		case <-time.After(5 * time.Second):
+		case <-time.After(patience(5 * time.Second)):
 			bad = "bad hung insert"
 		}
 		owner.Store(0)
@@ -327,7 +327,7 @@ func runScanConc(r *runner) {
 		select {
 		case s := <-done:
 			r.emit(s)
-		case <-time.After(120 * time.Second):
+		case <-time.After(patience(120 * time.Second)):
 			r.emit("bad hung (scenario did not finish within 120 s)")
 		}
 	}
